@@ -199,6 +199,16 @@ func (c *ConstantStruct) Link(scope Scope, t TypeSpec) (ConstantValue, error) {
 				}
 				continue
 			}
+			if field.linkingDefault {
+				return nil, constantValueCastError{
+					Value: c,
+					Type:  t,
+					Reason: constantStructFieldCastError{
+						FieldName: field.Name,
+						Reason:    defaultValueCycleError{FieldName: field.Name},
+					},
+				}
+			}
 			f = field.Default
 			c.Fields[field.Name] = f
 		}
